@@ -222,12 +222,61 @@ pub struct CoreCfg<'a> {
     pub adler_probe: bool,
     /// C06: after completion a further call consumes nothing and reports completion again
     pub post_done: bool,
+    /// object reuse: before the run proper the same decoder object is driven over an earlier stream
+    /// (valid, corrupt or abandoned mid-way) and re-initialised with `init()`
+    pub prelude: Option<Prelude<'a>>,
+}
+
+#[derive(Clone, Copy)]
+pub struct Prelude<'a> {
+    pub bytes: &'a [u8],
+    pub zlib: bool,
+    pub chunk: usize,
+    pub max_calls: u32,
+    /// reset variant for the streaming wrapper: 0 reset(fmt) 1 ZeroReset 2 MinReset 3 FullReset(fmt)
+    pub policy: i64,
+}
+
+pub fn prelude_of(s: &Script) -> Option<Prelude<'_>> {
+    if s.c("prelude") == 0 {
+        return None;
+    }
+    Some(Prelude { bytes: s.blob("prelude"), zlib: s.c("prelude_zlib") != 0, chunk: s.c_or("prelude_chunk", 1 << 20).max(1) as usize, max_calls: s.c_or("prelude_calls", 1000).max(1) as u32, policy: s.c("prelude_policy") })
+}
+
+/// Drive `r` over an earlier stream (into a private 32 KiB ring) and re-initialise it.
+fn run_prelude_core(r: &mut DecompressorOxide, p: &Prelude, st: &mut Stats) {
+    let mut ring = vec![0u8; 32768];
+    let mut pos = 0usize;
+    let mut opos = 0usize;
+    let base = if p.zlib { TINFL_FLAG_PARSE_ZLIB_HEADER } else { 0 };
+    for _ in 0..p.max_calls {
+        let end = (pos + p.chunk).min(p.bytes.len());
+        let flags = base | if end < p.bytes.len() { TINFL_FLAG_HAS_MORE_INPUT } else { 0 };
+        let (s, c, w) = decompress_with_limit(r, &p.bytes[pos..end], &mut ring, opos, usize::MAX, flags);
+        st.inc("steps");
+        pos += c.min(end - pos);
+        opos = (opos + w) & 32767;
+        match s {
+            TINFLStatus::NeedsMoreInput | TINFLStatus::HasMoreOutput | TINFLStatus::BlockBoundary => {
+                if s == TINFLStatus::NeedsMoreInput && end == p.bytes.len() {
+                    break;
+                }
+            }
+            _ => break,
+        }
+    }
+    r.init();
+    st.inc("probe.decoder_reused_after_init");
 }
 
 /// Drive the core decoder over `m` with the schedule `ops` = [[deliver, budget], ...]; budget < 0 means
 /// unlimited. After the ops are exhausted a canonical tail delivers everything with unlimited budget.
 pub fn run_core(m: &[u8], cfg: &CoreCfg, ops: &[Vec<i64>], st: &mut Stats) -> Result<DecRun, Violation> {
     let mut r = DecompressorOxide::new();
+    if let Some(p) = &cfg.prelude {
+        run_prelude_core(&mut r, p, st);
+    }
     let n = m.len();
     let mut out: Vec<u8>;
     let mask;
@@ -461,12 +510,44 @@ pub fn mz_code(r: &Result<MZStatus, MZError>) -> i32 {
 /// {None, Partial, Sync, Block} until everything is delivered; `finish_tail` switches to Finish once all
 /// input has been delivered (and keeps it).
 pub fn run_inflate(m: &[u8], fmt: DataFormat, ops: &[Vec<i64>], finish_tail: bool, first_finish: bool, tail_cap: usize, st: &mut Stats, cp: &str) -> Result<DecRun, Violation> {
-    run_inflate_snap(m, fmt, ops, finish_tail, first_finish, tail_cap, st, cp, None)
+    run_inflate_snap(m, fmt, ops, finish_tail, first_finish, tail_cap, st, cp, None, None)
+}
+
+/// An InflateState that has been used for an earlier stream and reset with the given policy.
+pub fn reused_inflate_state(fmt: DataFormat, p: &Prelude, st: &mut Stats) -> Box<InflateState> {
+    use miniz_oxide::inflate::stream::{FullReset, MinReset, ZeroReset};
+    // MinReset/ZeroReset keep the data format, so the earlier stream is read in the format of the run proper
+    let pre_fmt = if p.policy == 1 || p.policy == 2 { fmt } else if p.zlib { DataFormat::Zlib } else { DataFormat::Raw };
+    let mut state = InflateState::new_boxed(pre_fmt);
+    let mut pos = 0usize;
+    let mut out = vec![0u8; 1 + (p.chunk % 5000)];
+    for _ in 0..p.max_calls {
+        let end = (pos + p.chunk).min(p.bytes.len());
+        let res = inflate(&mut state, &p.bytes[pos..end], &mut out, MZFlush::None);
+        st.inc("steps");
+        pos += res.bytes_consumed.min(end - pos);
+        match res.status {
+            Ok(MZStatus::Ok) => {}
+            Err(MZError::Buf) if end < p.bytes.len() => {}
+            _ => break,
+        }
+    }
+    match p.policy {
+        1 => state.reset_as(ZeroReset),
+        2 => state.reset_as(MinReset),
+        3 => state.reset_as(FullReset(fmt)),
+        _ => state.reset(fmt),
+    }
+    st.inc("probe.inflate_state_reused_after_reset");
+    state
 }
 
 #[allow(clippy::too_many_arguments)]
-pub fn run_inflate_snap(m: &[u8], fmt: DataFormat, ops: &[Vec<i64>], finish_tail: bool, first_finish: bool, tail_cap: usize, st: &mut Stats, cp: &str, snap: Option<u32>) -> Result<DecRun, Violation> {
-    let mut state = InflateState::new_boxed(fmt);
+pub fn run_inflate_snap(m: &[u8], fmt: DataFormat, ops: &[Vec<i64>], finish_tail: bool, first_finish: bool, tail_cap: usize, st: &mut Stats, cp: &str, snap: Option<u32>, prelude: Option<&Prelude>) -> Result<DecRun, Violation> {
+    let mut state = match prelude {
+        Some(p) => reused_inflate_state(fmt, p, st),
+        None => InflateState::new_boxed(fmt),
+    };
     let n = m.len();
     let mut delivered = 0usize;
     let mut consumed = 0usize;
@@ -758,7 +839,11 @@ pub fn exec(s: &Script, st: &mut Stats) -> Result<RunInfo, Violation> {
     if s.c("compute_adler") != 0 {
         extra_flags |= TINFL_FLAG_COMPUTE_ADLER32;
     }
-    let tail_cap = v.out.len() / (if mode == 1 { ring_sz } else { 1 << 30 }).max(1) + 8;
+    if s.c("stop_bb") != 0 {
+        // extra suspension points: the decoder also returns at every block boundary
+        extra_flags |= TINFL_FLAG_STOP_ON_BLOCK_BOUNDARY;
+    }
+    let tail_cap = v.out.len() / (if mode == 1 { ring_sz } else { 1 << 30 }).max(1) + 8 + if s.c("stop_bb") != 0 { v.blocks.len() + 2 } else { 0 };
     let ccfg = CoreCfg {
         zlib,
         ring: if mode == 1 { Some(ring_sz) } else { None },
@@ -775,6 +860,7 @@ pub fn exec(s: &Script, st: &mut Stats) -> Result<RunInfo, Violation> {
         snap: None,
         adler_probe: s.c("adler_probe") != 0,
         post_done: clauses & CL_C06 != 0,
+        prelude: prelude_of(s),
     };
     let mut hh = Hasher::new();
     let mut nontrivial = !s.faults.is_empty();
@@ -927,7 +1013,8 @@ pub fn exec(s: &Script, st: &mut Stats) -> Result<RunInfo, Violation> {
             let fmt = fmt_of(zlib, ignore_adler);
             let finish_tail = s.c("finish_tail") != 0;
             let tail_cap = v.out.len() / 4096 + m.len() + 16;
-            let r = run_inflate(&m, fmt, &s.ops, finish_tail, first_finish, tail_cap, st, cp)?;
+            let pre = prelude_of(s);
+            let r = run_inflate_snap(&m, fmt, &s.ops, finish_tail, first_finish, tail_cap, st, cp, None, pre.as_ref())?;
             if r.suspensions > 0 {
                 nontrivial = true;
             }
@@ -953,7 +1040,7 @@ pub fn exec(s: &Script, st: &mut Stats) -> Result<RunInfo, Violation> {
             if clauses & CL_C07 != 0 && v.verdict == Verdict::Valid && v.prehistory_reads == 0 {
                 // "for valid streams the result is also the same across modes and entry points":
                 // compare with the one-call run of the core decoder on a flat buffer.
-                let fcfg = CoreCfg { zlib, ring: None, ring_init: &[], flat_cap: v.out.len() + 1, hasmore: 0, extra_flags, canary: false, probe: false, expect: &v.out, expect_exact: true, tail_cap: 4, clause_prefix: cp, snap: None, adler_probe: false, post_done: false };
+                let fcfg = CoreCfg { zlib, ring: None, ring_init: &[], flat_cap: v.out.len() + 1, hasmore: 0, extra_flags, canary: false, probe: false, expect: &v.out, expect_exact: true, tail_cap: 4, clause_prefix: cp, snap: None, adler_probe: false, post_done: false, prelude: None };
                 let b = run_core(&m, &fcfg, &[], st)?;
                 if r.out != b.out {
                     return viol("C07.output_equal", format!("[inflate()] output differs from the one-call flat run (lengths {} vs {})", r.out.len(), b.out.len()));
@@ -1065,6 +1152,23 @@ pub fn exec(s: &Script, st: &mut Stats) -> Result<RunInfo, Violation> {
             };
             hh.u(term as u64);
             hh.bytes(&o);
+            if clauses & CL_C07 != 0 && slices.len() > 1 {
+                // the same bytes as ONE slice: verdict and output must not depend on the partition
+                let mut out1 = vec![0u8; out.len()];
+                let res1 = decompress_slice_iter_to_slice(&mut out1, std::iter::once(&m[..]), zlib, ignore_adler);
+                st.inc("calls");
+                let (t1, o1) = match res1 {
+                    Ok(nw) => (Term::Done, out1[..nw.min(out1.len())].to_vec()),
+                    Err(e) => (term_of_status(e), Vec::new()),
+                };
+                if t1 != term {
+                    return viol("C07.verdict_equal", format!("[slice_iter] {} slices end with {:?}, the same bytes as one slice with {:?}", slices.len(), term, t1));
+                }
+                if o1 != o {
+                    return viol("C07.output_equal", format!("[slice_iter] {} slices give {} bytes, one slice gives {} bytes (or different content)", slices.len(), o.len(), o1.len()));
+                }
+                st.inc("probe.slice_iter_partition_compared");
+            }
             let r = DecRun { term, out: o, consumed: 0, suspensions: 0, calls: 1, hash: 0, saw_failed_call: matches!(term, Term::Failed | Term::AdlerMismatch | Term::BadParam), adler: None };
             let mut j = jd("slice_iter");
             j.hasmore = 0;
